@@ -1,0 +1,11 @@
+//go:build verif
+
+package websocket
+
+import "net"
+
+// VerifConn is the connection interface the transport is built on (gorilla's *websocket.Conn implements it).
+type VerifConn = websocketConn
+
+// VerifNewTransport builds the MQTT-over-websocket transport on any frame source / sink.
+func VerifNewTransport(ws VerifConn) net.Conn { return newConn(ws) }
